@@ -15,7 +15,7 @@ import hashlib, hmac as _hmac, importlib.util, itertools, sys, types, logging
 logging.getLogger("pycoin.key.bip32").disabled = True      # the 'lotto ticket' message of the forced-HMAC scenarios
 
 PROP = "C09"
-EXTRA_PROPS = ["C09compose"]   # composition theorems (see DESIGN.md section 0)
+EXTRA_PROPS = ["C09compose", "C09ec"]   # composition theorems (see DESIGN.md section 0); C09ec: group instantiated for secp256k1
 DRIVER = "C09"
 INTERACTIVE = True
 RULE = ("correspondence: one driver line per scenario (a history of subkey / subkey_for_path / subkeys calls on one root or over a family "
@@ -23,7 +23,7 @@ RULE = ("correspondence: one driver line per scenario (a history of subkey / sub
         "call of master / ckd_priv / ckd_pub / serialize / deserialize / hwif / hparse / bipNN / subpaths / int() / electrum); "
         "distinct = distinct line; non-trivial = the model returns a value (not an exception)")
 PARTIAL = [
-    "the group is abstract in the theorems; primality of n is not used, the hypotheses are the module laws of G "
+    "the group is abstract in the theorems of Props/C09.v (instantiated for secp256k1 in Props/C09ec.v); primality of n is not used, the hypotheses are the module laws of G "
     "(smul (a+b) G = smul a G + smul b G, smul (a mod n) G = smul a G, smul a G = O <-> a mod n = 0)",
     "C09_pub_priv_commute holds under I_L < n and child <> 0 (probability of the complement about 2^-127 per derivation on "
     "secp256k1); outside it the private side retries with 01||I_R||i and the public side reduces I_L mod n "
@@ -1576,9 +1576,13 @@ def chk_blob_roundtrip(x, odd, depth, idx):
     if sec_status(cand) != "ok":
         return None
     blob = BTC_XPUB + ser_fields(depth, b"\x01\x02\x03\x04", idx, bytes(range(32)), cand)
-    nd = node_class("BTC", 32).deserialize(blob)
-    if nd.serialize() != blob[4:] or nd.tree_depth() != depth or nd.child_index() != idx:
-        return {"kind": "blob-roundtrip", "blob": blob.hex()}
+    try:
+        nd = node_class("BTC", 32).deserialize(blob)
+        back = nd.serialize()
+    except Exception as e:
+        return {"kind": "blob-roundtrip-raises", "blob": blob.hex(), "detail": "%s: %s" % (type(e).__name__, e)}
+    if back != blob[4:] or nd.tree_depth() != depth or nd.child_index() != idx:
+        return {"kind": "blob-roundtrip", "blob": blob.hex(), "depth": nd.tree_depth(), "index": nd.child_index()}
     t = BTC.parse.bip32(b58check_enc(0, blob))
     if t is None or t.hwif() != b58check_enc(0, blob):
         return {"kind": "text-blob-roundtrip", "blob": blob.hex()}
